@@ -139,3 +139,54 @@ func VH_C16_timeoutNow_term() {
 	}
 	vReach("end")
 }
+
+//verif:check C16,C17,C15 stubs=env,valuefile,abslog reach=asked,reply-error,reply-rejected,reply-ok,gave-up,retried,end desc="leader.onTimeoutNowResult for every outcome of the timeout-now request (transport error, rejected by the target, accepted): a transfer whose task has been answered is over - no further timeout-now request is created, no timer of it stays armed, updates are accepted again; a transfer still in progress has its task unanswered, and at most one request outstanding; every request goes to a reachable, caught-up voter other than the leader" bounds="n=2..3 nodes, symbolic voter flags, match indexes and reachability; named or any target; one request and its outcome"
+func VH_C16_onTimeoutNowResult() {
+	n := 2 + vChoice(2)
+	r, l := vTransferLeader(n)
+	target := uint64(vChoice(n + 1)) // 0 = any
+	t := transferLdr{task: newTask(), target: target, timeout: 1000}
+	l.onTransfer(t)
+	vAssume(l.transfer.inProgress() && vSpawnCount() == 1) // a request went out
+	vReach("asked")
+	var asked uint64
+	for id, repl := range l.repls {
+		if r.configs.Latest.Nodes[id].Voter && repl.status.noContact.IsZero() && repl.status.matchIndex == r.lastLogIndex {
+			if target == 0 || target == id {
+				asked = id // (one of the eligible ones; which one does not matter for what follows)
+			}
+		}
+	}
+	vAssume(asked != 0)
+	var res rpcResponse
+	switch vChoice(3) {
+	case 0:
+		res = rpcResponse{response: &timeoutNowResp{}, from: asked, err: vIOError{"connection reset"}}
+		vReach("reply-error")
+	case 1:
+		res = rpcResponse{response: &timeoutNowResp{resp{term: r.term, result: staleTerm}}, from: asked}
+		vReach("reply-rejected")
+	case 2:
+		res = rpcResponse{response: &timeoutNowResp{resp{term: r.term, result: success}}, from: asked}
+		vReach("reply-ok")
+	}
+	l.onTimeoutNowResult(res)
+	if isClosed(t.Done()) {
+		vReach("gave-up")
+		vAssert(t.Err() != nil, "TR-answered-with-an-error")
+		vAssert(!l.transfer.inProgress() && !l.transfer.targetChosen(), "TR-answered-transfer-is-over")
+		vAssert(vSpawnCount() == 1, "TR-no-timeout-now-after-the-task-was-answered")
+		ne := &newEntry{entry: &entry{typ: entryUpdate}, task: newTask()}
+		last := r.lastLogIndex
+		l.storeEntry(ne)
+		vAssert(r.lastLogIndex == last+1, "TR-updates-accepted-again")
+	} else {
+		vAssert(l.transfer.inProgress(), "TR-unanswered-transfer-is-in-progress")
+		vAssert(vSpawnCount() <= 2, "TR-at-most-one-retry")
+		if vSpawnCount() == 2 {
+			vReach("retried")
+			vAssert(l.transfer.respCh != nil, "TR-retry-is-outstanding")
+		}
+	}
+	vReach("end")
+}
